@@ -242,6 +242,12 @@ pub struct World {
 	/// miner policy: a relayed transaction is held back for up to this many blocks (0 = mined at once)
 	pub miner_delay_max: u32,
 	pub miner_release: HashMap<Txid, u32>,
+	/// miner policy: a transaction (with its unconfirmed parents / children as a package) is only mined at
+	/// or above this feerate in sat per 1000 weight (0 = no fee policy)
+	pub miner_min_feerate: u32,
+	pub fee_market_used: bool,
+	/// transactions exempt from the miner's fee policy (the cheater's own, which nobody bumps)
+	pub miner_exempt: std::collections::HashSet<Txid>,
 	/// conclusive events handled so far, per node (chain-delivery comparisons)
 	pub event_log: Vec<(usize, String)>,
 	pub chain_equiv: bool,
@@ -261,7 +267,7 @@ impl World {
 		log.trace.store(trace && std::env::var("VERIF_TAP_TRACE").is_ok(), Ordering::Relaxed);
 		let best = BlockLocator::new(bitcoin::constants::genesis_block(bitcoin::Network::Regtest).header.block_hash(), crate::chain::BASE_HEIGHT);
 		let nodes: Vec<Node> = node_cfgs.into_iter().enumerate().map(|(i, c)| Node::new(i, c, &log, fee_now, best.clone())).collect();
-		World { rng: seed_rng, log, log_cursor: 0, nodes, chans: vec![], links: HashMap::new(), chain: Chain::new(), obs: VecDeque::new(), step: 0, claimable: vec![], payments: vec![], regs: vec![], script: vec![], trace, fee_now, next_user_id: 1, funding_txs: HashMap::new(), spendable: vec![], watch_counts: HashMap::new(), snapshot_counts: vec![], total_writes: vec![], crashes_handled: 0, writes_at_open: vec![], captured: vec![], revocations_seen: Default::default(), cp_commit_numbers: HashMap::new(), close: None, attacker_htlc_txs: vec![], onchain_done: false, miner_delay_max: 0, miner_release: HashMap::new(), event_log: vec![], chain_equiv: false }
+		World { rng: seed_rng, log, log_cursor: 0, nodes, chans: vec![], links: HashMap::new(), chain: Chain::new(), obs: VecDeque::new(), step: 0, claimable: vec![], payments: vec![], regs: vec![], script: vec![], trace, fee_now, next_user_id: 1, funding_txs: HashMap::new(), spendable: vec![], watch_counts: HashMap::new(), snapshot_counts: vec![], total_writes: vec![], crashes_handled: 0, writes_at_open: vec![], captured: vec![], revocations_seen: Default::default(), cp_commit_numbers: HashMap::new(), close: None, attacker_htlc_txs: vec![], onchain_done: false, miner_delay_max: 0, miner_release: HashMap::new(), miner_min_feerate: 0, fee_market_used: false, miner_exempt: Default::default(), event_log: vec![], chain_equiv: false }
 	}
 	/// Whether the victim (the other party) has processed the revocation of this captured commitment.
 	pub fn is_revoked(&self, c: &crate::onchain::Captured) -> bool {
@@ -730,13 +736,51 @@ impl World {
 			self.relay_broadcasts();
 			let next_h = self.chain.height() + 1;
 			let dmax = self.miner_delay_max;
-			let b = if dmax == 0 {
+			// fee policy: decide per package before mining
+			let mut too_cheap: std::collections::HashSet<Txid> = Default::default();
+			if self.miner_min_feerate > 0 {
+				let pool = self.chain.mempool.clone();
+				let fee_w = |tx: &Transaction, all: &HashMap<bitcoin::OutPoint, TxOut>| -> (u64, u64) {
+					let inv: u64 = tx.input.iter().map(|i| all.get(&i.previous_output).map(|o| o.value.to_sat()).unwrap_or(0)).sum();
+					let outv: u64 = tx.output.iter().map(|o| o.value.to_sat()).sum();
+					(inv.saturating_sub(outv), tx.weight().to_wu())
+				};
+				for tx in pool.iter() {
+					if tx.input.is_empty() {
+						continue;
+					}
+					let txid = tx.compute_txid();
+					let (mut f, mut wt) = fee_w(tx, &self.chain.all_outputs);
+					for other in pool.iter() {
+						let oid = other.compute_txid();
+						if oid == txid || other.input.is_empty() {
+							continue;
+						}
+						let is_child = other.input.iter().any(|i| i.previous_output.txid == txid);
+						let is_parent = tx.input.iter().any(|i| i.previous_output.txid == oid);
+						if is_child || is_parent {
+							let (f2, w2) = fee_w(other, &self.chain.all_outputs);
+							f += f2;
+							wt += w2;
+						}
+					}
+					if f * 1000 / wt.max(1) < self.miner_min_feerate as u64 && !self.miner_exempt.contains(&txid) {
+						if self.trace {
+							eprintln!("  step {} MINER holds {} back: package pays {} sat/kw, policy {}", self.step, txid, f * 1000 / wt.max(1), self.miner_min_feerate);
+						}
+						too_cheap.insert(txid);
+					}
+				}
+			}
+			let b = if dmax == 0 && too_cheap.is_empty() {
 				self.chain.mine(|_| true)
+			} else if dmax == 0 {
+				self.chain.mine(|tx| !too_cheap.contains(&tx.compute_txid()))
 			} else {
 				let (rng, rel) = (&mut self.rng, &mut self.miner_release);
 				self.chain.mine(|tx| {
 					let r = rel.entry(tx.compute_txid()).or_insert_with(|| next_h + if rng.chance(1, 2) { 0 } else { rng.below(dmax as u64 + 1) as u32 });
-					next_h >= *r
+					next_h >= *r && !too_cheap.contains(&tx.compute_txid())
 				})
 			};
 			self.log.height.store(b.height, Ordering::SeqCst);
